@@ -188,3 +188,63 @@ def lp_models(tier="quick"):
             for (t2, f2) in forms[::3]:
                 out.append(dict(tag=f"pair:{t1}|{t2}", obj=f1, sense="min", cons=[("le", f2, ("num", S("r1"))), ("ge", f1, f2)], bounds=std_bounds))
     return out
+
+
+# ==========================================================================
+# models for the solve properties (C06-C09, C12, C13, C18, C20)
+# ==========================================================================
+Y = ("var", "y")
+
+
+def solve_models(tier="quick"):
+    """small models covering LP and NLP routes, 0-3 constraints of each sense,
+    bounds present / absent, scalar / vector / matrix variables"""
+    v2 = ("vec", "v", 2)
+    bx = {"x": (S("lx"), S("ux")), "y": (0.0, None), "v": (S("lv"), S("uv"))}
+    nb = {}
+    sq = lambda e: ("bin", "**", e, ("const", 2))  # noqa: E731
+    M = []
+
+    def add(tag, obj, sense, cons, bounds):
+        M.append(dict(tag=tag, obj=obj, sense=sense, cons=cons, bounds=bounds))
+
+    quad = ("bin", "+", sq(("bin", "-", X, ("num", S("c1")))), sq(Y))
+    # --- nonlinear objective
+    add("nlp0", quad, "min", [], bx)
+    add("nlp0-nobounds", quad, "min", [], nb)
+    add("nlp0-max", ("un", "neg", quad), "max", [], bx)
+    add("nlp1-ge", quad, "min", [("ge", ("bin", "+", X, Y), ("num", S("r0")))], bx)
+    add("nlp1-le", quad, "min", [("le", ("bin", "-", X, Y), ("num", S("r0")))], nb)
+    add("nlp1-eq", quad, "min", [("eq", ("bin", "+", X, ("bin", "*", ("num", 2.0), Y)), ("num", S("r0")))], bx)
+    add("nlp2-infeasible-shape", ("bin", "*", X, X), "min", [("ge", X, ("num", S("r0"))), ("le", X, ("num", S("r1")))], nb)
+    add("nlp3", quad, "min", [("ge", X, ("num", S("r0"))), ("le", Y, ("num", S("r1"))), ("eq", ("bin", "*", X, Y), ("num", S("r2")))], bx)
+    add("nlp-rle", quad, "max", [("rle", X, ("num", S("r0"))), ("rge", Y, ("num", S("r1")))], bx)
+    add("nlp-exp", ("bin", "+", ("un", "exp", X), ("bin", "*", ("const", S("c1")), Y)), "min", [("ge", ("bin", "+", X, Y), ("num", 1.0))], bx)
+    add("nlp-vec", ("bin", "+", ("vsum", ("vpow", v2, 2)), ("const", S("c0"))), "min", [("ge", ("vsum", v2), ("num", S("r0")))], bx)
+    add("nlp-dot", ("dot", v2, v2), "max", [("le", ("lincomb", [S("k0"), 1.0], v2), ("num", S("r0")))], nb)
+    add("nlp-quadform", ("quad", v2, [[2.0, S("q")], [0.0, 1.0]]), "min", [("eq", ("vsum", v2), ("num", 1.0))], bx)
+    add("nlp-param", ("bin", "+", ("bin", "*", ("param", "p"), X), sq(X)), "min", [("le", X, ("param", "p2"))], bx)
+    add("nlp-con-nonlinear", ("bin", "+", X, Y), "min", [("le", ("bin", "+", sq(X), sq(Y)), ("num", S("r0")))], bx)
+    add("nlp-matrix", ("fro", ("mat", "A", 2, 2)), "min", [("ge", ("trace", ("mat", "A", 2, 2)), ("num", S("r0")))], {"A": (S("lA"), None)})
+    # --- linear models (LP route on auto)
+    lin = ("bin", "+", ("bin", "+", ("bin", "*", ("const", S("c1")), X), ("bin", "*", ("num", S("c2")), Y)), ("num", S("c0")))
+    add("lp0", lin, "min", [], bx)
+    add("lp1-ge", lin, "min", [("ge", ("bin", "+", X, Y), ("num", S("r0")))], bx)
+    add("lp1-le-max", lin, "max", [("le", ("bin", "+", X, Y), ("num", S("r0")))], bx)
+    add("lp2-eq", lin, "min", [("eq", ("bin", "-", X, Y), ("num", S("r0"))), ("ge", X, ("num", S("r1")))], nb)
+    add("lp3", lin, "max", [("le", X, ("num", S("r0"))), ("ge", Y, ("num", S("r1"))), ("eq", ("bin", "+", X, Y), ("num", S("r2")))], bx)
+    add("lp-infeasible-shape", X, "min", [("ge", X, ("num", S("r0"))), ("le", X, ("num", S("r1")))], nb)
+    add("lp-vec", ("bin", "+", ("lincomb", [S("k0"), S("k1")], v2), ("const", S("c0"))), "min", [("ge", ("vsum", v2), ("num", S("r0")))], bx)
+    add("lp-vec-max", ("vsum", v2), "max", [("le", ("lincomb", [S("k0"), S("k1")], v2), ("num", S("r0"))), ("rle", ("velem", v2, 0), ("num", S("r1")))], bx)
+    add("lp-const-in-con", ("bin", "-", X, Y), "min", [("le", ("lincomb", [S("k0"), S("k1")], ("vbin", "+", v2, ("sc", S("c0")))), ("num", S("r0")))], bx)
+    add("lp-mixed", ("bin", "+", ("vsum", v2), X), "min", [("ge", ("bin", "+", ("velem", v2, 1), X), ("num", S("r0")))], bx)
+    if tier == "thorough":
+        v3 = ("vec", "v", 3)
+        add("nlp-vec3", ("bin", "+", ("vsum", ("vpow", v3, 2)), ("norm", v3, 2)), "min", [("ge", ("vsum", v3), ("num", S("r0"))), ("le", ("velem", v3, 0), ("velem", v3, 2))], bx)
+        add("lp-vec3", ("lincomb", [S("k0"), S("k1"), S("k2")], v3), "max", [("le", ("vsum", v3), ("num", S("r0"))), ("ge", ("velem", v3, 1), ("num", 0.0)), ("eq", ("bin", "-", ("velem", v3, 0), ("velem", v3, 2)), ("num", S("r1")))], bx)
+        add("nlp-sym", ("msum", ("mbin", "*", ("mat", "S", 2, 2, True), ("mat", "S", 2, 2, True))), "min", [("ge", ("trace", ("mat", "S", 2, 2, True)), ("num", 1.0))], {"S": (None, S("uS"))})
+    return M
+
+
+METHODS = ["auto", "linprog", "highs", "highs-ds", "highs-ipm", "SLSQP", "trust-constr", "L-BFGS-B"]
+LP_METHODS = {"linprog", "highs", "highs-ds", "highs-ipm"}
